@@ -129,6 +129,10 @@ type Session struct {
 	messagesOnce sync.Once
 	// messages is the channel on which the session receives BFD packets.
 	messages chan bfdMessage
+	// closed is closed by Close. The messages channel itself is never closed: ReceiveMessage may
+	// still be called (by packet processors) while the session is being closed.
+	closed    chan struct{}
+	closeOnce sync.Once
 
 	// localStateLock protects access to the local state.
 	localStateLock sync.RWMutex
@@ -228,6 +232,8 @@ func (s *Session) Run(ctx context.Context) error {
 MainLoop:
 	for {
 		select {
+		case <-s.closed:
+			break MainLoop
 		case msg, ok := <-s.messages:
 			if !ok {
 				break MainLoop
@@ -320,7 +326,7 @@ MainLoop:
 
 func (s *Session) Close() error {
 	s.initMessages()
-	close(s.messages)
+	s.closeOnce.Do(func() { close(s.closed) })
 	return nil
 }
 
@@ -423,13 +429,17 @@ func (s *Session) ReceiveMessage(msg *layers.BFD) {
 	}
 
 	// The packet will be returning to the pool. We do not keep a reference to any part of it.
-	s.messages <- bfdMessage{
+	m := bfdMessage{
 		State:                 msg.State,
 		DetectMultiplier:      msg.DetectMultiplier,
 		MyDiscriminator:       msg.MyDiscriminator,
 		YourDiscriminator:     msg.YourDiscriminator,
 		DesiredMinTxInterval:  msg.DesiredMinTxInterval,
 		RequiredMinRxInterval: msg.RequiredMinRxInterval,
+	}
+	select {
+	case s.messages <- m:
+	case <-s.closed: // Session closed: the message is dropped.
 	}
 }
 
@@ -452,6 +462,7 @@ func (s *Session) initMetrics() {
 func (s *Session) initMessages() {
 	s.messagesOnce.Do(func() {
 		s.messages = make(chan bfdMessage, s.ReceiveQueueSize)
+		s.closed = make(chan struct{})
 	})
 }
 
